@@ -224,6 +224,28 @@ func C17(r *vf.Run) {
 		})
 		r.Cell("hostile-order:sequences")
 	}
+	if r.Phase("muldiv-concurrent") {
+		// the closed form also when many goroutines are in MulDiv at once in steady state, each on a few
+		// ratios of its own that it keeps returning to, overlapping with its neighbours' (C18 looks for
+		// data races; this looks at the answers)
+		workers := 16
+		per := r.N(400000, 4000000)
+		vf.Parallel(workers, workers, func(w, wi int) {
+			g := r.Rand("conc").Fork(uint64(wi))
+			var cells [3][3]int64
+			ratios := [][2]int{{16, 16}, {1 + wi%4, 2}, {g.Intn(256), 1 + g.Intn(255)}, {31, 31}, {(wi / 4) + 3, 7}}
+			for k := 0; k < per; k++ {
+				rt := ratios[g.Intn(len(ratios))]
+				if k%1024 == 0 {
+					runtime.Gosched()
+				}
+				check(int(g.U16()), rt[0], rt[1], &cells)
+			}
+			r.Eval(int64(per))
+			merge(&cells)
+		})
+		r.Cell("concurrent:steady-state")
+	}
 	if r.Phase("muldiv-fades") {
 		// what the function is for: a palette faded in and out - the multiplicand walks up and down in
 		// steps of one over a fixed divisor, every ratio applied to a handful of colours (so each ratio is
@@ -316,6 +338,7 @@ func C17(r *vf.Run) {
 	if r.OnlyPhase == "" {
 		r.Require("long-gaps:sequences")
 		r.Require("fades:sequences")
+		r.Require("concurrent:steady-state")
 		r.Require("hostile-order:zero-divisor-calls-recovered")
 		r.Require("muldiv:r:q>=256")
 		r.Require("muldiv:b:q32..255")
